@@ -292,7 +292,7 @@ def h_step(shape, fix=None, prequery=True):
                 res_eq(got0, ref_resolve(model, target0)))
       raised = False
       try:
-        rm.add_quantization_config(regex, op, cfg, alg)
+        _via_quantizer(rm).update_quantization_recipe(regex, op, cfg, alg)
       except ValueError:
         raised = True
       e.reach('add')
@@ -328,6 +328,13 @@ class _CfgStub:
   @staticmethod
   def from_dict(d):
     return d
+
+
+def _via_quantizer(rm):
+  """The public facade over a prepared RecipeManager state."""
+  q = quantizer_lib.Quantizer(bytearray(b''), None)
+  q._recipe_manager = rm
+  return q
 
 
 def h_load(n):
@@ -563,7 +570,7 @@ def replay(c):
           what.append(f'pre-update resolve({t0.value}) = {g0}, reference {w0}')
       raised = False
       try:
-        rm.add_quantization_config(regex, op, cfg, alg)
+        _via_quantizer(rm).update_quantization_recipe(regex, op, cfg, alg)
       except ValueError:
         raised = True
       model, ref_raised = ref_add_c(model, regex, op, cfg, alg)
